@@ -33,6 +33,24 @@ type Addr struct {
 	Idx   string // absolute index into backing array (elem)
 	ElemT types.Type
 	Path  []pathStep // selection inside a struct value held in the cell / element
+	Off, I string    // elem of a slice: offset of the slice and index within it (for the sl.elem accessor)
+	ElemRootT types.Type // elem: element type of the backing array (before Path is applied)
+}
+
+// slElem reads element i of a slice view (array a, offset o) through the accessor function
+// sl.elem.<sort>, which gives quantified contracts about slice elements a usable trigger.
+func (g *Gen) slElem(elem types.Type, arr, off, i string) string {
+	if g.mode != ModeInt || elem == nil {
+		return "(select " + arr + " " + g.add(off, i) + ")"
+	}
+	es := g.sortOf(elem)
+	fn := "sl.elem." + sanitize(es)
+	if !g.declared["uf:"+fn] {
+		g.declared["uf:"+fn] = true
+		g.emit("(declare-fun %s ((Array Int %s) Int Int) %s)", fn, es, es)
+		g.emit("(assert (forall ((a (Array Int %s)) (o Int) (i Int)) (! (= (%s a o i) (select a (+ o i))) :pattern ((%s a o i)))))", es, fn, fn)
+	}
+	return "(" + fn + " " + arr + " " + off + " " + i + ")"
 }
 
 func sanitize(s string) string {
